@@ -119,3 +119,24 @@ impl LuaIndex for DiagnosticIndex {
         self.file_diagnostic_enabled.clear();
     }
 }
+
+#[cfg(emmyluals_emmylua_analyzer_rust_verif)]
+impl DiagnosticIndex {
+    /// Verification hook: entry counts of every container of this index.
+    pub fn verif_sizes(&self) -> Vec<(&'static str, usize)> {
+        vec![
+            ("diagnostic_actions", self.diagnostic_actions.len()),
+            (
+                "diagnostic_actions/items",
+                self.diagnostic_actions.values().map(|v| v.len()).sum(),
+            ),
+            ("diagnostics", self.diagnostics.len()),
+            (
+                "diagnostics/items",
+                self.diagnostics.values().map(|v| v.len()).sum(),
+            ),
+            ("file_diagnostic_disabled", self.file_diagnostic_disabled.len()),
+            ("file_diagnostic_enabled", self.file_diagnostic_enabled.len()),
+        ]
+    }
+}
